@@ -182,6 +182,17 @@ def _work_text(task) -> core.Part:
         p.add("nontrivial")
         if e:
             _report(p, items, e, f"unknown code {obis}")
+    # 'magic' words harvested from the implementation's source as identification strings
+    for t in cosemx.word_texts():
+        items = [("0.0.96.1.7.255", ("str", t)), ("1.0.1.7.0.255", ("num", "u32", 5, 0, W)), ("1.0.31.7.0.255", ("num", "i16", 123, -1, A)), ("1.1.0.2.129.255", ("str", t[::-1])),
+                 ("0.0.96.1.0.255", ("str", t))]
+        e = check_items(items)
+        p.add("evaluations")
+        p.add("nontrivial")
+        if e:
+            _report(p, items, e, f"text {t!r}")
+            if p.full("aidon"):
+                break
     return p
 
 
